@@ -17,7 +17,9 @@ from vlib.common import *
 
 PROP = "C13"
 STD = "/repo/vhdl_libraries"
-MODES = {1: "respace", 2: "comments", 4: "case", 7: "respace+comments+case", 8: "join-onto-one-line", 16: "one-token-per-line"}
+MODES = {1: "respace", 2: "comments", 4: "case", 7: "respace+comments+case", 8: "join-onto-one-line", 16: "one-token-per-line",
+         64 | 32: "one-file-only:header-lines", 64 | 8: "one-file-only:join", 64 | 16: "one-file-only:one-token-per-line",
+         64 | 3: "one-file-only:respace+comments"}
 
 
 # ---------------------------------------------------------------------------------------------
@@ -337,7 +339,7 @@ def oracle_stage(res, d, hbin, tier):
                     if l.strip() and not l.startswith("#"):
                         g.write(l if l.endswith("\n") else l + "\n")
                         nin += 1
-    ngen, ntrans = (3500, 12) if tier == "thorough" else (150, 6)
+    ngen, ntrans = (3000, 14) if tier == "thorough" else (120, 7)
     out = os.path.join(d, "oracle.jsonl")
     if os.path.exists(out):
         os.remove(out)
@@ -476,11 +478,11 @@ def main(tier, replay=None):
         "optional configuration/context/duplicate unit, optional second library; identifiers already written in mixed "
         "case; 0..4 seeded faults per project: undeclared names, type errors, duplicate declarations incl. "
         "case-different spellings, missing units/architectures/formals, extended identifiers differing only by case, "
-        "unused declarations, missing/superfluous sensitivity-list entries, syntax errors; positional generic/port maps of entity and component instantiations with 4 differently typed formals written on one line or one per line, positional subprogram calls and record aggregates).  Each project is analysed as "
-        "it is and after k%6 = 0 re-spacing of every gap (blanks, tabs, LF, CRLF, empty where two tokens may touch), "
+        "unused declarations, missing/superfluous sensitivity-list entries, syntax errors; positional generic/port maps of entity and component instantiations with 4 differently typed formals written on one line or one per line, positional subprogram calls and record aggregates; package body, architecture and configuration in files of their own, with and without header, corpus projects with every cross-file secondary unit, context and package instance).  Each project is analysed as "
+        "it is and after k%7 = 0 re-spacing of every gap (blanks, tabs, LF, CRLF, empty where two tokens may touch), "
         "1 insertion/deletion of line and block comments (every star/slash pattern, quotes, Latin-1, CR/CRLF, directly after a "
         "token, at end of file), 2 case permutation of keywords and basic identifiers (extended identifiers, literals, "
-        "strings untouched), 3 all of them, 4 every file joined onto ONE line (comments dropped), 5 ONE TOKEN PER LINE; the transformed text must give the same "
+        "strings untouched), 3 all of them, 4 every file joined onto ONE line (comments dropped), 5 ONE TOKEN PER LINE, 6 ONE FILE ONLY (3..48 header lines prepended / joined / split / re-spaced, the other files untouched, so that positions change relative to other files; hand-made corpus projects get every (file, operation) pair); the transformed text must give the same "
         "token kinds/values/Symbol ids (lexer half) and the same multiset of (code, token index of range start and end, "
         "message lower-cased, multiset of related (token index, message)); syntax errors by code and number of tokens "
         "ending at or before the anchor.  Both versions use the same file paths.  SYMBOL TABLE: the 256 bytes, every "
